@@ -6,6 +6,7 @@
 -/
 import GoHeader.Oracle.C01
 import GoHeader.Oracle.C02
+import GoHeader.Oracle.Store
 open GoHeader GoHeader.Oracle
 
 def evalLine (line : String) : Option Verdict :=
@@ -30,22 +31,43 @@ def bump (cov : List (String × Nat)) (k : String) : List (String × Nat) :=
   | [] => [(k, 1)]
   | (k', n) :: rest => if k' = k then (k', n + 1) :: rest else (k', n) :: bump rest k
 
-partial def loop (h : IO.FS.Stream) (lineNo : Nat) (a : DAcc) : IO DAcc := do
+def storeCov (o : OSt) : String :=
+  let m := o.model
+  s!"store:{if o.dead.isEmpty then "" else "D"}{if o.nHandlers > 0 then "H" else ""}{if o.mayFail then "F" else ""}{if m.head.isNone then "E" else ""}{if m.pending.isEmpty then "" else "P"}"
+
+partial def loop (h : IO.FS.Stream) (lineNo : Nat) (a : DAcc) (cur : Option (Nat × OSt)) : IO DAcc := do
   let line ← h.getLine
-  if line.isEmpty then return a
+  if line.isEmpty then
+    -- input ended inside a case: the harness died there
+    match cur with
+    | some (start, _) => IO.println s!"{start} bad truncated case (harness crashed?)"; return { a with n := a.n + 1, bad := a.bad + 1 }
+    | none => return a
   let line := line.trimAsciiEnd.toString
-  match evalLine line with
-  | none => loop h (lineNo + 1) a
-  | some v =>
+  let finish (a : DAcc) (lineNo : Nat) (v : Verdict) : IO DAcc := do
     let a := { a with n := a.n + 1 }
     match v with
-    | .ok c => loop h (lineNo + 1) { a with ok := a.ok + 1, cov := bump a.cov c }
-    | .corr .. => IO.println s!"{lineNo} {v.render}"; loop h (lineNo + 1) { a with corr := a.corr + 1 }
-    | .prop .. => IO.println s!"{lineNo} {v.render}"; loop h (lineNo + 1) { a with prop := a.prop + 1 }
-    | .bad .. => IO.println s!"{lineNo} {v.render}"; loop h (lineNo + 1) { a with bad := a.bad + 1 }
+    | .ok c => pure { a with ok := a.ok + 1, cov := bump a.cov c }
+    | .corr .. => IO.println s!"{lineNo} {v.render}"; pure { a with corr := a.corr + 1 }
+    | .prop .. => IO.println s!"{lineNo} {v.render}"; pure { a with prop := a.prop + 1 }
+    | .bad .. => IO.println s!"{lineNo} {v.render}"; pure { a with bad := a.bad + 1 }
+  if line.startsWith "case " then
+    loop h (lineNo + 1) a (some (lineNo, storeLine {} line))
+  else match cur with
+  | some (start, o) =>
+    if line == "end" then
+      let v := match o.fail with | some v => v | none => .ok (storeCov o)
+      let a ← finish a start v
+      loop h (lineNo + 1) a none
+    else loop h (lineNo + 1) a (some (start, storeLine o line))
+  | none =>
+    match evalLine line with
+    | none => loop h (lineNo + 1) a none
+    | some v =>
+      let a ← finish a lineNo v
+      loop h (lineNo + 1) a none
 
 def main : IO Unit := do
-  let a ← loop (← IO.getStdin) 1 {}
+  let a ← loop (← IO.getStdin) 1 {} none
   IO.println s!"summary cases={a.n} ok={a.ok} corr={a.corr} prop={a.prop} bad={a.bad}"
   for (k, n) in a.cov do
     IO.println s!"cov {k} {n}"
